@@ -25,7 +25,11 @@ func TestMain(m *testing.M) { vkit.Main(m) }
 func TestSeq(t *testing.T)  { vkit.Check(t, collSeq, GenSeq, RunSeq) }
 func TestConc(t *testing.T) { vkit.Check(t, collConc, GenConc, RunConc) }
 
+var collDrain = vkit.NewCollector("C04", "TestOnceWhileDraining", "an asynchronous handler is still running when Shutdown is called (background context, or one that ends after 1 or 50 ms; with or without a store); released 2 ms later, it publishes 1-4 events of another type for 1-4 Once handlers (sync/async/sequential, filters) and returns. Oracle: whatever Shutdown returned, every Once handler eligible for one of those events ran exactly once and HandlerCount counts only those that were not eligible. Non-trivial = every case.")
+
+func TestOnceWhileDraining(t *testing.T) { vkit.Check(t, collDrain, GenDrain, RunDrain) }
+
 func TestReplay(t *testing.T) {
 	r := vkit.NeedReplay(t)
-	_ = vkit.ReplayCase(t, r, collSeq, RunSeq) || vkit.ReplayCase(t, r, collConc, RunConc)
+	_ = vkit.ReplayCase(t, r, collSeq, RunSeq) || vkit.ReplayCase(t, r, collConc, RunConc) || vkit.ReplayCase(t, r, collDrain, RunDrain)
 }
